@@ -14,6 +14,14 @@ _EXPERIMENT_TASK_REGEX = re.compile(
 _REGULAR_TASK_REGEX = re.compile(r"^(?P<name>[a-zA-Z0-9_-]+)\.task\Z")
 
 
+def _relative_to_cwd(path: pathlib.Path, cwd: pathlib.Path) -> pathlib.Path:
+    # Compute a relative path to the current working directory, if possible
+    try:
+        return path.relative_to(cwd)
+    except ValueError:
+        return path
+
+
 def register_command(subparsers):
     parser = subparsers.add_parser(
         "gc",
@@ -75,9 +83,9 @@ def main(args):
 
         if args.dry_run:
             for exp_path in to_delete:
-                print("Would delete", str(exp_path.relative_to(cwd)))
+                print("Would delete", str(_relative_to_cwd(exp_path, cwd)))
         else:
             for exp_path in to_delete:
                 if args.verbose:
-                    print("Deleting", str(exp_path.relative_to(cwd)))
+                    print("Deleting", str(_relative_to_cwd(exp_path, cwd)))
                 shutil.rmtree(exp_path, ignore_errors=True)
